@@ -332,4 +332,9 @@ def r10_setters(F, R):
     roles.check_all_builder_setters(F, R, only=r"^(retries|retry_after|retry_filter|retry_options|max_concurrent_scenarios|fail_fast)$", floor=10)
 
 
-RULES = [("R6", r6, None), ("R1", r1, None), ("R2", r2, None), ("R3", r3, None), ("R4", r4, None), ("R5", r5, None), ("R7", r7, None), ("R8", r8, None), ("R9", r9_clone, None), ("R10", r10_setters, None)]
+def r11_cli(F, R):
+    """The CLI half of the precedence chain: `--retry`, `--retry-after`, `--retry-tag-filter`, `--concurrency`, `--fail-fast` are declared under these long names and read back into the like-named fields of `runner::basic::Cli` (clap derive expansion)."""
+    n = roles.check_cli_surface(F, R, "runner::basic::Cli")
+    R.floor(5)
+
+RULES = [("R6", r6, None), ("R1", r1, None), ("R2", r2, None), ("R3", r3, None), ("R4", r4, None), ("R5", r5, None), ("R7", r7, None), ("R8", r8, None), ("R9", r9_clone, None), ("R10", r10_setters, None), ("R11", r11_cli, None)]
